@@ -146,7 +146,7 @@ def run_configs(chk, cfgs, tol=TOL):
         if len(chk.samples) < 4 and cfg["n"] >= 2:
             r0 = max(rs, key=lambda r: len(r["row"]))
             chk.sample({"config": cfg, "start": oracle.fmt_state(states[r0["si"]]), "executions_from_start": r0["n_exec"],
-                        "row": sorted(([oracle.fmt_state(y) if y[0] not in ("EXC", "MALFORMED") else y, p] for y, p in r0["row"].items()), key=lambda t: -t[1])[:4],
+                        "row": sorted(([oracle.fmt_state(y) if not isinstance(y[0], str) else list(y), p] for y, p in r0["row"].items()), key=lambda t: -t[1])[:4],
                         "balance_residual": resid})
     chk.note("configs", len(cfgs))
     chk.note("roots", len(roots))
@@ -168,11 +168,16 @@ def determinism_probe(chk, cfg, si):
     from mc.enumrng import ScriptedRNG
 
     r = S.compute_row((cfg, si))
+    if not r["witness"]:  # every execution failed: the configurations below report it
+        return None, None, None
     wit = max(r["witness"].items(), key=lambda kv: len(kv[1]))
     y, choices = wit
     obs = []
     for _ in range(2):
-        obs.append(replay_once(cfg, si, choices))
+        try:
+            obs.append(replay_once(cfg, si, choices))
+        except Exception as e:
+            obs.append(["raised", type(e).__name__, str(e)[:100]])
     env = dict(os.environ, PYTHONHASHSEED="4242")
     cmd = [sys.executable, "-c", "import sys,json; sys.path.insert(0,%r); from mc.checks.c01 import replay_once; print('OBS', json.dumps(replay_once(json.loads(sys.argv[1]), int(sys.argv[2]), json.loads(sys.argv[3]))))" % VERIF,
            json.dumps(cfg), str(si), json.dumps(choices)]
@@ -181,6 +186,9 @@ def determinism_probe(chk, cfg, si):
 
 
 def finish_probe(chk, obs, proc, what):
+    if proc is None:
+        chk.note("determinism_probe", "skipped: the probe configuration produced no successful execution")
+        return
     out, err = proc.communicate(timeout=600)
     line = [l for l in out.splitlines() if l.startswith("OBS ")]
     sub = json.loads(line[0][4:]) if line else ["<no output>", err[-300:]]
